@@ -106,7 +106,7 @@ Definition known_inversion (fn op : string) : bool :=
   existsb (fun a => String.eqb (fst a) fn && String.eqb (snd a) op) known_inversions.
 
 (* ---- simulation of one function -------------------------------------------------------------------------------- *)
-Inductive frame := FBody | FClosure | FDeferred | FSelect.
+Inductive frame := FBody | FClosure | FDeferred | FSelect | FIfRet.
 
 Record sim := mkSim {
   held : list string;                    (* classes held in the current goroutine frame *)
@@ -126,6 +126,7 @@ Definition sim_step (fn : string) (creates_cache : bool) (s : sim) (op : string)
   else if String.eqb op "func{" then mkSim (if creates_cache then ["cache.mu"] else []) ((FClosure, held s) :: stack s) (bad s)
   else if String.eqb op "defer func{" then mkSim [] ((FDeferred, held s) :: stack s) (bad s)
   else if String.eqb op "select{" then mkSim (held s) ((FSelect, held s) :: stack s) (bad s)
+  else if String.eqb op "ifret{" then mkSim (held s) ((FIfRet, held s) :: stack s) (bad s)   (* a branch that leaves the function *)
   else if String.eqb op "}" then
     match stack s with
     | (FSelect, _) :: r => mkSim (held s) r (bad s)
